@@ -118,11 +118,26 @@ def run(ctx) -> None:
             ctx.check("R2", ok, "key 'file_patterns': INI from the :file_patterns section, TOML from the nested table, default {}", "config: file_patterns not provided by both readers", "", loc="src/bumpver/config.py")
         else:
             ctx.ok("R2", f"key '{k}': copied wholesale from the section by both readers")
-    lits = [n for n in ast.walk(readers["cfg"].node) if isinstance(n, ast.Compare) and isinstance(n.ops[0], ast.In) and "lower()" in unparse(n.left)]
+    # the test that turns an INI string into a boolean, decided by folding it for the documented spellings in three cases
+    def _str_collection(e_: ast.AST) -> bool:
+        try:
+            v_ = prog.fold(readers["cfg"].module, e_)
+        except AnalysisError:
+            return False
+        return isinstance(v_, (tuple, list, set, frozenset)) and bool(v_) and all(isinstance(x_, str) for x_ in v_)
+    lits = [n for n in ast.walk(readers["cfg"].node) if isinstance(n, ast.Compare) and len(n.ops) == 1 and isinstance(n.ops[0], ast.In) and _str_collection(n.comparators[0])
+            and any(isinstance(x_, ast.Name) for x_ in ast.walk(n.left))]
     ctx.require(len(lits) == 1, "_parse_cfg: boolean spelling test not found")
-    spell = set(prog.fold(readers["cfg"].module, lits[0].comparators[0]))
-    ctx.check("R2", {"true", "yes", "1", "on"} <= spell and not ({"false", "no", "0", "off", ""} & spell), f"INI booleans: true-spellings {sorted(spell)}", "config._parse_cfg: INI boolean spellings changed",
-              f"{sorted(spell)}", loc=readers["cfg"].loc(lits[0]))
+    vars_ = sorted({x.id for x in ast.walk(lits[0].left) if isinstance(x, ast.Name)})
+    ctx.require(len(vars_) == 1, "_parse_cfg: boolean spelling test is not over one value")
+    wrong = []
+    for word, want in [(w_, True) for w_ in ("true", "yes", "1", "on")] + [(w_, False) for w_ in ("false", "no", "0", "off", "")]:
+        for form in {word, word.upper(), word.capitalize()}:
+            got = bool(prog.fold(readers["cfg"].module, lits[0], {vars_[0]: form}))
+            if got != want:
+                wrong.append((form, got))
+    ctx.check("R2", not wrong, "INI booleans: yes/true/1/on in any case are true, false/no/0/off/'' are false", "config._parse_cfg: INI boolean spellings changed",
+              f"`{unparse(lits[0])}` reads {wrong[:4]} (a TOML `true` has one spelling; the INI reader documents case-insensitive words)", loc=readers["cfg"].loc(lits[0]), witness=wrong[:2])
     isinst = [c for c in ast.walk(readers["cfg"].node) if isinstance(c, ast.Call) and unparse(c.func) == "isinstance" and "str" in unparse(c.args[1])]
     ctx.check("R2", len(isinst) == 1, "INI booleans: only string values are interpreted (defaults pass through)", "config._parse_cfg: default values are string-parsed", "", loc=readers["cfg"].loc())
 
